@@ -65,6 +65,23 @@ Definition build_obs (g : bool) (f : flavour) (script : list val) : val :=
     let '(d, e') := Data f e in
     VL [obs f e; VB d; obs f e'; read_obs g d]
   end.
+(* ---- ONE object observed after every step (goexec/ebp.go ebp.hist): the steps of build_step plus [21 _] = Data();
+   reply per step [every getter; x<bytes of Data()> | []].  A getter has no state in Gallina, so reading the time
+   between two SetEBPTime calls cannot influence the second read. ---- *)
+Fixpoint hist_run (f : flavour) (e : t) (script : list val) : option (list val) :=
+  match script with
+  | [] => Some []
+  | VL [VI 21%Z; _] :: r =>
+    let '(d, e') := Data f e in
+    match hist_run f e' r with Some l => Some (VL [obs f e'; VB d] :: l) | None => None end
+  | s :: r =>
+    match build_step f e s with
+    | Some e' => match hist_run f e' r with Some l => Some (VL [obs f e'; VL []] :: l) | None => None end
+    | None => None
+    end
+  end.
+Definition hist_obs (f : flavour) (e : t) (script : list val) : val :=
+  match hist_run f e script with Some l => VL (obs f e :: l) | None => vbad end.
 Definition flavour_of (z : Z) : option flavour :=
   if Z.eqb z 0 then Some Comcast else if Z.eqb z 1 then Some CableLabs else None.
 
@@ -121,6 +138,15 @@ Definition ops : list op := [
      | _ => vbad end);
   ("ebp.buildg", fun a => match a with
      | [VI f; VL script] => match flavour_of f with Some f => build_obs true f script | None => vbad end
+     | _ => vbad end);
+  (* start = [flavour] (created through the API) or [x<bytes>] (decoded, unpatched reader) *)
+  ("ebp.hist", fun a => match a with
+     | [VL [VI f]; VL script] => match flavour_of f with Some f => hist_obs f (create f) script | None => vbad end
+     | [VL [VB b]; VL script] =>
+       match ReadEncoderBoundaryPoint false b with
+       | Ok (f, e) => VL [VI 0%Z; hist_obs f e script]
+       | r => vres (fun _ => VL []) r
+       end
      | _ => vbad end);
   (* SetEBPTime then EBPTime on a fresh EBP of the flavour: [seconds fraction time] *)
   ("ebp.time", fun a => match a with
